@@ -8,6 +8,9 @@ mc_Keep4   == {"ak", "bk"}
 mc_TracesB == {"bk", "bd"}
 mc_OwnerB  == ("bk" :> "b" @@ "bd" :> "b")
 mc_KeepB   == {"bk"}
+mc_Traces3b == {"ak", "bk", "bd"}
+mc_Owner3b  == ("ak" :> "a" @@ "bk" :> "b" @@ "bd" :> "b")
+mc_Keep3b   == {"ak", "bk"}
 mc_Nodes3  == {"a", "b", "c"}
 mc_Traces3 == {"ak", "bd", "ck"}
 mc_Owner3  == ("ak" :> "a" @@ "bd" :> "b" @@ "ck" :> "c")
